@@ -23,6 +23,21 @@ def run(ctx):
     h, r = ctx.gen("interleavings", "GenSubs", dict(base, MaxDepth=2 + (5 if q else 6), Vals={0, 1, 2}, QSizes={1, 2, 3},
                                                     Scripts=scripts(setups[2:4] if q else setups)))
     gens.append(("interleavings", to_cases(take(h, 3000 if q else 60000, ctx.seed))))
+    # repeated overflows between two collections: the item samples at every tick, the subscription collects every 8th; more
+    # samples than the queue holds arrive before the queue is drained, then the values are published
+    ov = []
+    for qs in (2, 3):
+        for d in (True, False):
+            sc = [["CreateSub", 1, 2, 8, True, 0, 8], ["CreateItem", 1, 1, 1, qs, d, "Reporting", 0], ["Tick", 1]]
+            for j in range(7):
+                sc += [["Write", 1, 1 + (j % 3)], ["Tick", 1]]
+            sc += [["Pub"], ["Tick", 1]]
+            ov.append(sc)
+    ovc = consts(Vals={0, 1, 2, 3}, Acts={"Tick", "Pub"}, Scripts=scripts(ov), QSizes={2, 3}, Dolds={True, False}, MaxPubs=99, MaxTicks=99, Dts={1},
+                 MaxDepth=len(ov[0]) + 3)
+    ctx.model_check("design_overflows", "MCSubs", dict(ovc, Mons={"C24"}), ["C24"], view="MView")
+    h, r = ctx.gen("overflows", "GenSubs", ovc)
+    gens.append(("overflows", to_cases(take(h, 400 if q else 4000, ctx.seed))))
     n = 300 if q else 4000
     h, r = ctx.gen("random", "GenSubs", dict(base, MaxDepth=36, MaxWrites=16, MaxPubs=8, MaxTicks=18),
                    simulate="num=%d" % max(20, n // 8))
